@@ -52,7 +52,7 @@ func (ye *yamlEncoder) PrintLeadingContent(writer io.Writer, content string) err
 			}
 
 		} else {
-			if len(readline) > 0 && readline != "\n" && readline[0] != '%' && !commentLineRegEx.MatchString(readline) {
+			if strings.TrimSpace(readline) != "" && readline[0] != '%' && !commentLineRegEx.MatchString(readline) {
 				readline = "# " + readline
 			}
 			if ye.prefs.ColorsEnabled && strings.TrimSpace(readline) != "" {
